@@ -275,10 +275,20 @@ pub fn uri_object(uri: &str) -> Option<u64> {
     uri.strip_prefix("rsync://rpki.example/repo/o")?.strip_suffix(".cer")?.parse().ok()
 }
 
-pub fn content_bytes(content: u64) -> Vec<u8> { format!("object-content-{content}").into_bytes() }
+/// The bytes of content number `content`. Sizes vary with the number (17 …
+/// ~380 bytes) so that archive updates are sometimes in place (same page
+/// count) and sometimes delete + publish.
+pub fn content_bytes(content: u64) -> Vec<u8> {
+    let mut res = format!("object-content-{content}").into_bytes();
+    res.extend(std::iter::repeat(b'.').take((content % 4) as usize * 120));
+    res
+}
 
 pub fn bytes_content(data: &[u8]) -> Option<u64> {
-    std::str::from_utf8(data).ok()?.strip_prefix("object-content-")?.parse().ok()
+    let text = std::str::from_utf8(data).ok()?;
+    let core = text.trim_end_matches('.');
+    let content: u64 = core.strip_prefix("object-content-")?.parse().ok()?;
+    if content_bytes(content) == data { Some(content) } else { None }
 }
 
 pub fn sha256(data: &[u8]) -> [u8; 32] {
@@ -578,6 +588,27 @@ pub fn observe(config: &Config) -> Result<Option<LocalObs>, String> {
             best_before: state.best_before_ts,
             delta_state,
         }))
+    })();
+    let _ = std::fs::remove_file(&copy);
+    res
+}
+
+/// One object as stored: name, hash in the meta data, content.
+pub type RawObject = (Vec<u8>, [u8; 32], Vec<u8>);
+
+/// Reads the archive's objects with their stored hashes (on a copy).
+pub fn observe_raw(config: &Config) -> Result<Option<Vec<RawObject>>, String> {
+    let path = match archive_path(config) {
+        Some(path) => path,
+        None => return Ok(None),
+    };
+    let copy = config.cache_dir.join("observe-raw-copy.bin");
+    std::fs::copy(&path, &copy).map_err(|e| format!("copy: {e}"))?;
+    let res = (|| {
+        let archive = RrdpArchive::open(Arc::new(copy.clone())).map_err(|_| "open failed".to_string())?;
+        let mut objs = archive.verif_objects_with_hash().map_err(|e| format!("objects: {e}"))?;
+        objs.sort();
+        Ok(Some(objs))
     })();
     let _ = std::fs::remove_file(&copy);
     res
